@@ -375,6 +375,10 @@ class Override(Contract):
                 continue
             same.append(V(S.I.truth(S.I.compare(ast.Eq(), c1[k], c2[k]))))
         out["nothing_else_changed"] = And(*same)
+        # two set-ups in one process must not SHARE a mutable constant (a nested dictionary or list): a later set-up
+        # writing its delays would rewrite the constants an earlier one returned (template copied shallowly)
+        shared = [k for k in keys if k in c1 and k in c2 and isinstance(c1[k], (dict, list)) and c1[k] is c2[k]]
+        out["set_ups_share_no_mutable_constant"] = V(not shared)
         got = []
         for k, want in changed.items():
             got.append(V(k in c2) if want is None else (V(c2.get(k)) == want if k in c2 else V(False)))
